@@ -52,8 +52,11 @@ func (g *Gen) bigInt() *big.Int {
 		v = new(big.Int).Lsh(big.NewInt(1), uint(n))
 	case 1:
 		v = new(big.Int).Sub(new(big.Int).Lsh(big.NewInt(1), uint(n)), big.NewInt(1))
-	case 2: // decimal all-nines / ties at the 34-35 digit boundary
-		nd := 30 + g.r.Intn(30)
+	case 2: // decimal all-nines / ties at the 34-35 digit boundary, also hundreds of digits long (several 10^18 chunks)
+		nd := 35 + g.r.Intn(30)
+		if g.r.Intn(2) == 0 {
+			nd = []int{60, 78, 96, 100, 115, 130, 150, 200, 400, 1000}[g.r.Intn(10)]
+		}
 		v = new(big.Int).Add(new(big.Int).Mul(g.fullCoef(), pow10(nd-34)), new(big.Int).Div(pow10(nd-34), big.NewInt(2)))
 		if g.r.Intn(2) == 0 {
 			v.Add(v, big.NewInt(int64(g.r.Intn(3)-1)))
@@ -199,7 +202,7 @@ func (g *Gen) f32() float32 {
 
 // decimals in the float range, many near halfway points between adjacent floats
 func (g *Gen) decForFloat() d128.Decimal {
-	switch g.r.Intn(6) {
+	switch g.r.Intn(7) {
 	case 0:
 		return randAny(g.r)
 	case 1: // the exact decimal expansion of a float midpoint, rounded into the format (very close to a tie)
@@ -223,6 +226,10 @@ func (g *Gen) decForFloat() d128.Decimal {
 			d = d.Neg()
 		}
 		return d
+	case 5: // short coefficients exactly at the exponent edges of float64 / float32, in several cohort members
+		e := []int{306, 307, 308, 309, 310, -322, -323, -324, -325, -326, 37, 38, 39, -44, -45, -46, -47, 0}[g.r.Intn(18)]
+		c := big.NewInt(int64(1 + g.r.Intn(20)))
+		return g.cohort(mk(g.r.Intn(2) == 0, c, e))
 	case 2: // around the edges of the float range
 		return mk(g.r.Intn(2) == 0, randCoef(g.r), []int{-400, -380, -360, -359, -358, -357, -343, -342, -330, -324, -323, -310, 270, 274, 275, 290, 300, 307, 308, 309, 310, 330}[g.r.Intn(22)])
 	case 3: // float32 range edges
